@@ -56,11 +56,15 @@ class EliminateVariable:
                 if is_defined_fun(c):
                     # Avoid cycles with smtlib.InlineDefinedFuns
                     continue
-                if is_var(c) and (c.data > t.data) != (
-                        options.args().replace_by_variable_mode == 'inc'):
+                if is_var(c):
                     # Avoid cycles with core.ReplaceByVariable, which
-                    # replaces a variable by a larger (smaller) one
-                    continue
+                    # replaces a variable by a larger (smaller) one, and
+                    # with SimplifyQuotedSymbols (x and |x| are one symbol)
+                    cname = get_symbol_name(c.data)
+                    tname = get_symbol_name(t.data)
+                    if cname == tname or (cname > tname) != (
+                            options.args().replace_by_variable_mode == 'inc'):
+                        continue
                 if t in nodes.dfs(c):
                     # Avoid cycles (for example with core.ReplaceByChild)
                     continue
